@@ -29,7 +29,8 @@ Theorem C11_do_scroll_visible : forall allow cur so_s so_e pos w content,
 Proof. exact do_scroll_visible. Qed.
 Print Assumptions C11_do_scroll_visible.
 
-(* Safety half, for EVERY scroll state and both wrapping modes, width-1
+(* Safety half, for every scroll state with vertical_scroll >= 0 (all that any
+   sequence of renders produces: C11_sequence) and both wrapping modes, width-1
    characters: whatever (row, col) has an entry in rowcol_to_yx after
    _copy_body - in particular the cursor - lies inside the window body and the
    screen cell there shows exactly that character of the content. *)
@@ -156,17 +157,44 @@ Theorem C11_rows_consecutive :
 Proof. exact rows_consecutive. Qed.
 Print Assumptions C11_rows_consecutive.
 
+(* ... and the registered rows start at -vertical_scroll_2, which shows
+   (vertical_scroll, horizontal_scroll), and form a contiguous interval (every
+   registered row above the first has a registered predecessor) - again for all
+   character widths, prefixes, both modes, every scroll state (provided a line
+   exists at vertical_scroll and the first row is above the window bottom).
+   Not proved (oracle + correspondence only): the column recorded for a wrapped
+   row increases within a line, and every character registered on screen row y
+   belongs to the line recorded for y. *)
+Theorem C11_rows_interval :
+  forall sw dw disp wrap haspfx pfx width height xpos ypos lines st,
+  skipn (Z.to_nat (vs st)) lines <> [] -> - vs2 st < height ->
+  let out := copy_body sw dw disp wrap haspfx pfx width height xpos ypos lines st in
+  zlist_get (cvl out) (- vs2 st) = Some (vs st, hs st) /\
+  (forall y e, zlist_get (cvl out) y = Some e ->
+     - vs2 st <= y /\ (- vs2 st < y -> exists e', zlist_get (cvl out) (y - 1) = Some e')).
+Proof. exact rows_interval. Qed.
+Print Assumptions C11_rows_interval.
+
 (* The render step ITSELF (Document row/col -> BeforeInput/TabsProcessor ->
    trailing blank -> NumberedMargin / ScrollbarMargin widths -> scroll ->
    _copy_body), for every configuration of the model (any margins, any prefix
    shape incl. variable widths, any tabstop, BeforeInput, scroll offsets >= 0,
    allow_scroll_beyond_bottom either way), width-1 characters, any previous
-   scroll state, ANY text and cursor with 0 <= cursor <= len text: render
-   succeeds, the cursor row addresses a line of the document, the content cursor
-   column is the processors' image of the document column and maps back to it,
-   and the screen cursor lies inside the window body.  (That the row/column
-   computed from the text address a document line is derived from the Document
-   theorems of C02: Proofs/C11_DocFacts.v.) *)
+   scroll state with vertical_scroll >= 0, ANY text and cursor with
+   0 <= cursor <= len text:
+   - render succeeds, the cursor row addresses a line of the document, the
+     content cursor column is the processors' image of the document column and
+     maps back to it;
+   - the cursor IS registered in rowcol_to_yx at a position inside the window
+     body: [render_cursor_ok ... = true], the same verdict the _refuted theorems
+     below show to be false for wide/control characters (so r_cursor is not the
+     (0,0) fallback);
+   - the body cell at the screen cursor (r_grid) shows the DOCUMENT character
+     under the cursor: [shown_char] = text[cursor], the first tab cell '|' when
+     TabsProcessor expands a tab, the blank when the cursor is at a line end or
+     at the end of the text.
+   (Document facts from C02: Proofs/C11_DocFacts.v; the processed line shows the
+   source character at the image column: process_line_char.) *)
 Theorem C11_render_wrap :
   forall g W Hh xpos ypos text cursor st,
   (forall c, tab_sw g c = 1 /\ tab_dw g c = 1) -> 0 <= g_tabstop g ->
@@ -174,15 +202,20 @@ Theorem C11_render_wrap :
   1 <= Hh -> 0 <= vs st -> 0 <= cursor <= len text ->
   g_wrap g = true ->
   (forall l k, epw (g_haspfx g) (cfg_pfx g) l k + 1 <= r_bwid g W text) ->
-  exists line r ucol Y X,
+  exists line r ucol Y X rowg,
     nth_error (r_src text) (Z.to_nat (r_row text cursor)) = Some line /\
     render g W Hh xpos ypos text cursor st = Some r /\ r_status r = 0 /\
     r_ui r = (r_row text cursor, ucol) /\
+    pl_s2d (process_line (g_bflag g) (g_before g) (g_tabstop g) TABCH1 TABCH2 (r_row text cursor) line)
+           (r_col text cursor) = Some ucol /\
     pl_d2s (process_line (g_bflag g) (g_before g) (g_tabstop g) TABCH1 TABCH2 (r_row text cursor) line) ucol
       = r_col text cursor /\
     r_cursor r = (Y, X) /\
     ypos <= Y < ypos + Hh /\
-    xpos + r_mw r <= X < xpos + r_mw r + r_bw r /\ r_bw r = r_bwid g W text.
+    xpos + r_mw r <= X < xpos + r_mw r + r_bw r /\ r_bw r = r_bwid g W text /\
+    render_cursor_ok g W Hh xpos ypos text cursor st = true /\
+    nth_error (r_grid r) (Z.to_nat (Y - ypos)) = Some rowg /\
+    nth_error rowg (Z.to_nat (X - xpos - r_mw r)) = Some (tab_disp g (shown_char g text cursor)).
 Proof. exact render_wrap_cursor_doc. Qed.
 Print Assumptions C11_render_wrap.
 
@@ -193,17 +226,35 @@ Theorem C11_render_nowrap :
   1 <= Hh -> 0 <= cursor <= len text ->
   g_wrap g = false ->
   1 <= r_bwid g W text - (if g_haspfx g then strw (tab_sw g) (cfg_pfx g (r_row text cursor) 0) else 0) ->
-  exists line r ucol Y X,
+  exists line r ucol Y X rowg,
     nth_error (r_src text) (Z.to_nat (r_row text cursor)) = Some line /\
     render g W Hh xpos ypos text cursor st = Some r /\ r_status r = 0 /\
     r_ui r = (r_row text cursor, ucol) /\
+    pl_s2d (process_line (g_bflag g) (g_before g) (g_tabstop g) TABCH1 TABCH2 (r_row text cursor) line)
+           (r_col text cursor) = Some ucol /\
     pl_d2s (process_line (g_bflag g) (g_before g) (g_tabstop g) TABCH1 TABCH2 (r_row text cursor) line) ucol
       = r_col text cursor /\
     r_cursor r = (Y, X) /\
     ypos <= Y < ypos + Hh /\
-    xpos + r_mw r <= X < xpos + r_mw r + r_bw r /\ r_bw r = r_bwid g W text.
+    xpos + r_mw r <= X < xpos + r_mw r + r_bw r /\ r_bw r = r_bwid g W text /\
+    render_cursor_ok g W Hh xpos ypos text cursor st = true /\
+    nth_error (r_grid r) (Z.to_nat (Y - ypos)) = Some rowg /\
+    nth_error rowg (Z.to_nat (X - xpos - r_mw r)) = Some (tab_disp g (shown_char g text cursor)).
 Proof. exact render_nowrap_cursor_doc. Qed.
 Print Assumptions C11_render_nowrap.
+
+(* The processed line shows, at the image of source column col, the source
+   character there (the first tab cell c1 under TabsProcessor); the image of the
+   line-end column is the end of the processed text (where the blank is appended). *)
+Theorem C11_process_line_char : forall bflag before tabstop c1 c2 lineno line col ucol,
+  0 <= tabstop -> 0 <= col ->
+  pl_s2d (process_line bflag before tabstop c1 c2 lineno line) col = Some ucol ->
+  (forall ch, nth_error line (Z.to_nat col) = Some ch ->
+     nth_error (pl_text (process_line bflag before tabstop c1 c2 lineno line)) (Z.to_nat ucol)
+     = Some (shown tabstop c1 ch)) /\
+  (col = len line -> ucol = len (pl_text (process_line bflag before tabstop c1 c2 lineno line))).
+Proof. exact process_line_char. Qed.
+Print Assumptions C11_process_line_char.
 
 (* get_height_for_line (fast path and prefix path, with and without
    slice_stop) is exact for width-1 characters and constant-width prefixes: it
